@@ -55,6 +55,11 @@ type Decoder struct {
 	typList    []string
 	refList    []reflect.Value
 	clsDefList []ClassDef
+
+	// maps read completely, and the copies made of them for typed destinations (one per type):
+	// n references to one map cost one conversion, not n
+	mapDone map[uintptr]bool
+	mapConv map[convertKey]reflect.Value
 }
 
 //NewDecoder new
@@ -77,6 +82,8 @@ func (d *Decoder) Reset(r ByteRuneReader) {
 	d.typList = make([]string, 0, 11)
 	d.clsDefList = make([]ClassDef, 0, 11)
 	d.refList = make([]reflect.Value, 0, 11)
+	d.mapDone = nil
+	d.mapConv = nil
 }
 
 //RegisterType register key/value type
